@@ -19,6 +19,12 @@ pub struct CaseReport {
     pub sample: String,
     /// extra replay info (e.g. schedule)
     pub replay_extra: String,
+    /// executions beyond the first that this case stands for (schedules / runs)
+    pub extra_evals: u64,
+    /// distinct non-trivial interleavings observed (concurrent engines)
+    pub ilvs: Vec<u64>,
+    /// the process cannot continue after this case (threads stuck)
+    pub fatal: bool,
 }
 
 impl CaseReport {
@@ -31,6 +37,9 @@ impl CaseReport {
             counts: Counts::default(),
             sample: String::new(),
             replay_extra: String::new(),
+            extra_evals: 0,
+            ilvs: Vec::new(),
+            fatal: false,
         }
     }
 }
@@ -106,6 +115,9 @@ pub fn main(args: &[String]) -> i32 {
 }
 
 fn run_case(o: &Opts, case_seed: u64) -> CaseReport {
+    if o.sub.starts_with("sched") || o.sub.starts_with("os") {
+        return crate::camp_conc::conc_case(o, case_seed);
+    }
     match o.prop.as_str() {
         "C01" | "C02" | "C04" | "C05" | "C06" | "C07" | "C09" | "C10" | "C11" | "C03" => {
             crate::camp_single::acyclic_case(o, case_seed)
@@ -140,12 +152,17 @@ fn run(o: &Opts) -> i32 {
             break;
         }
         let rep = run_case(o, cs);
-        evaluations += 1;
+        evaluations += 1 + rep.extra_evals;
         counts.merge(&rep.counts);
         if rep.nontrivial {
             nontrivial += 1;
-            sigs.insert(rep.sig);
+            if rep.ilvs.is_empty() {
+                sigs.insert(rep.sig);
+            } else {
+                sigs.extend(rep.ilvs.iter().map(|i| i ^ rep.sig));
+            }
         }
+        let fatal = rep.fatal;
         if samples.len() < 2 && rep.nontrivial && !rep.sample.is_empty() {
             samples.push(rep.sample.clone());
         }
@@ -201,6 +218,9 @@ fn run(o: &Opts) -> i32 {
                 rep.sample
             );
         }
+        if fatal {
+            break;
+        }
     }
     let sigs_s: Vec<String> = sigs.iter().map(|s| format!("\"{s}\"")).collect();
     let line = JObj::new()
@@ -216,11 +236,11 @@ fn run(o: &Opts) -> i32 {
         .raw("wall_s", format!("{:.3}", t0.elapsed().as_secs_f64()))
         .build();
     println!("{line}");
-    if !violations.is_empty() {
-        1
-    } else {
-        0
-    }
+    use std::io::Write;
+    let _ = std::io::stdout().flush();
+    let code = if !violations.is_empty() { 1 } else { 0 };
+    // worker threads of a stuck case may still be blocked: leave without joining them
+    std::process::exit(code)
 }
 
 /// Compare a request's outcome with the reference; returns a violation message on mismatch.
